@@ -34,6 +34,10 @@ fn poly_of(n: usize, rows: &[Row]) -> Polytope {
         }
         b[i] = *v;
     }
+    // about one system in four (with at least two rows and two columns) is stored column-major: same logical content
+    if rows.len() >= 2 && n >= 2 && (rows.len() * 7 + n * 3 + (rows[0].1.abs() * 2.0) as usize) % 4 == 0 {
+        a = to_f_order(&a);
+    }
     Polytope::from_mats(a, b)
 }
 
@@ -205,7 +209,8 @@ fn gen_sys(r: &mut Rng, tier_rows: usize) -> Sys {
             }
             2 => {
                 // zero row, bias of each sign
-                let b = [1.5, 0.0, -0.5, 2.0, 0.0][r.below(5)];
+                // (0 <= -0.0 is as trivially true as 0 <= 0.0: -0.0 arises from negating a zero bound)
+                let b = [1.5, 0.0, -0.5, 2.0, -0.0, 0.0][r.below(6)];
                 kind.push_str(if b > 0.0 { "+zpos" } else if b == 0.0 { "+zzero" } else { "+zneg" });
                 rows.push((vec![0.0; n], b));
                 if b < 0.0 {
